@@ -5,6 +5,7 @@ package vh
 import (
 	"bytes"
 	"crypto/ecdsa"
+	"crypto/sha256"
 	"encoding/base64"
 	"encoding/json"
 	"fmt"
@@ -70,6 +71,27 @@ func Identities() []*Ident {
 		}
 	})
 	return idents
+}
+
+var extraMu sync.Mutex
+var extraIdents = map[int]*Ident{}
+
+// ExtraIdentity returns the i-th of an unbounded family of further identities (deterministic keys
+// derived from i), for populations larger than the eight fixed ones.
+func ExtraIdentity(i int) *Ident {
+	extraMu.Lock()
+	defer extraMu.Unlock()
+	if id, ok := extraIdents[i]; ok {
+		return id
+	}
+	seed := sha256.Sum256([]byte(fmt.Sprintf("vipnode-verif-extra-identity-%d", i)))
+	k, err := crypto.ToECDSA(seed[:])
+	if err != nil {
+		panic(err)
+	}
+	id := &Ident{Name: fmt.Sprintf("x%d", i), Key: k, NodeID: discv5.PubkeyID(&k.PublicKey).String(), Wallet: crypto.PubkeyToAddress(k.PublicKey).Hex()}
+	extraIdents[i] = id
+	return id
 }
 
 var sigCache sync.Map
